@@ -1,0 +1,19 @@
+//go:build verif
+
+package rueidis
+
+import "sync/atomic"
+
+// VerifPickAZ runs pickAZ with a counter preset to c0 and returns the chosen
+// index together with the counter value afterwards.
+func VerifPickAZ(nodes []NodeInfo, clientAZ string, startIdx int, c0 uint32) (int, uint32) {
+	var counter atomic.Uint32
+	counter.Store(c0)
+	idx := pickAZ(nodes, clientAZ, startIdx, &counter)
+	return idx, counter.Load()
+}
+
+// VerifNewAZSelector exposes newAZSelector with an explicit start index.
+func VerifNewAZSelector(clientAZ string, startIdx int) func(uint16, []NodeInfo) int {
+	return newAZSelector(clientAZ, startIdx)
+}
